@@ -2,12 +2,11 @@
 
 C02.B.roundtrip   db -> .dbml -> PyDBML -> same content (view), and .dbml of the re-parsed database is
                   byte-identical (fixpoint); db ranges over (a) the repository's own documents, parsed,
-                  (b) an enumeration of models over the DBML-expressible value domain, one feature at a time on
-                  a rich skeleton, (c) seeded random models combining the features.
+                  (b) single-feature probes and a fixed enumeration of feature combinations over the
+                  DBML-expressible value domain, (c) seeded random models combining the features.
 
-A failing model is shrunk on the abstract model (delete elements, reset optional fields, plain names, plain
-types) while it keeps failing in the same way; the key is derived from the features left in the minimal
-model, so it names site and cause and never contains the input.
+Keys come from a fixed vocabulary: each is the label of a single-feature probe family (see "probes"); a failing
+composite model is attributed to the failing probes whose feature it contains, else other:<site>.
 Comments are not part of the content C02 promises (C14 owns them) and are ignored in the comparison.
 """
 from __future__ import annotations
@@ -20,7 +19,9 @@ from typing import Any, Dict, Iterator, List, Optional, Tuple
 from lib.bounded import BObl
 from bounded._text_models import exc_line, innermost_pydbml_function, parseable_seed_documents, seed_documents
 
-NAME_POOL = ['a b', 'Table', 'note', 'indexes', 'ref', '1x', 'é', 'a.b', 'a-b', '{x}']
+ODD_NAMES = ['a b', 'Table', 'note', 'indexes', 'ref', '1x', 'é', 'a-b', '{x}']   # need quoting / reserved words
+DOTTED = 'a.b'                                                                  # own probe family
+NAME_POOL = ODD_NAMES
 NAME_POSITIONS = ['table', 'table_schema', 'alias', 'column', 'enum', 'enum_schema', 'enum_item', 'index_name',
                   'ref_name', 'group', 'project', 'sticky_note']
 KEYWORDS = {'table', 'ref', 'enum', 'note', 'indexes', 'project', 'tablegroup', 'as', 'pk', 'unique', 'null',
@@ -122,7 +123,7 @@ def run_model(m) -> Optional[Tuple[str, str, str, str]]:
     return roundtrip(db, bool(m.get('allow_properties')))
 
 
-# =========================================================================== shrinking on the abstract model
+# =========================================================================== renaming in the abstract model
 
 def _plain(name: str) -> bool:
     return bool(re.fullmatch(r'[A-Za-z_][A-Za-z0-9_]*', name)) and name.lower() not in KEYWORDS
@@ -199,183 +200,7 @@ def _delete_enum(m, ei):
                 c['type'] = 'int'
 
 
-def candidates(m) -> Iterator[Any]:
-    """Smaller / plainer variants of a normalised model, big steps first.  Each is a thunk mutating a copy."""
-    from spec import model as M
-
-    def mk(f):
-        def go():
-            c = copy.deepcopy(m)
-            f(c)
-            return c
-        return go
-
-    # ---- whole elements
-    for ti in range(len(m['tables'])):
-        if len(m['tables']) > 1:
-            yield mk(lambda c, ti=ti: _delete_table(c, ti))
-    if m['project']:
-        yield mk(lambda c: c.__setitem__('project', None))
-    for k in ('sticky_notes', 'table_groups', 'refs'):
-        for i in range(len(m[k])):
-            yield mk(lambda c, k=k, i=i: c[k].pop(i))
-    for ei in range(len(m['enums'])):
-        yield mk(lambda c, ei=ei: _delete_enum(c, ei))
-    for ti, t in enumerate(m['tables']):
-        for ii in range(len(t['indexes'])):
-            yield mk(lambda c, ti=ti, ii=ii: c['tables'][ti]['indexes'].pop(ii))
-        for ci in range(len(t['columns'])):
-            if len(t['columns']) > 1:
-                yield mk(lambda c, ti=ti, ci=ci: _delete_column(c, ti, ci))
-    for ei, e in enumerate(m['enums']):
-        for ii in range(len(e['items'])):
-            if len(e['items']) > 1:
-                yield mk(lambda c, ei=ei, ii=ii: c['enums'][ei]['items'].pop(ii))
-    for gi, g in enumerate(m['table_groups']):
-        for ii in range(len(g['items'])):
-            yield mk(lambda c, gi=gi, ii=ii: c['table_groups'][gi]['items'].pop(ii))
-    if m['project']:
-        for ii in range(len(m['project']['items'])):
-            yield mk(lambda c, ii=ii: c['project']['items'].pop(ii))
-    # ---- optional fields back to their defaults
-    for ti, t in enumerate(m['tables']):
-        for k, dv in M._TABLE_DEF.items():
-            if k in ('schema', 'columns', 'indexes'):
-                continue
-            if t[k] != dv:
-                yield mk(lambda c, ti=ti, k=k, dv=dv: c['tables'][ti].__setitem__(k, copy.deepcopy(dv)))
-        for ci, col in enumerate(t['columns']):
-            for k, dv in M._COL_DEF.items():
-                if col[k] != dv:
-                    yield mk(lambda c, ti=ti, ci=ci, k=k, dv=dv: c['tables'][ti]['columns'][ci].__setitem__(k, copy.deepcopy(dv)))
-            if col['type'] != 'int':
-                yield mk(lambda c, ti=ti, ci=ci: c['tables'][ti]['columns'][ci].__setitem__('type', 'int'))
-        for ii, ix in enumerate(t['indexes']):
-            for k, dv in M._IDX_DEF.items():
-                if ix[k] != dv:
-                    yield mk(lambda c, ti=ti, ii=ii, k=k, dv=dv: c['tables'][ti]['indexes'][ii].__setitem__(k, dv))
-            if len(ix['subjects']) > 1:
-                for si in range(len(ix['subjects'])):
-                    yield mk(lambda c, ti=ti, ii=ii, si=si: c['tables'][ti]['indexes'][ii]['subjects'].pop(si))
-            for si, s in enumerate(ix['subjects']):
-                if 'col' not in s:
-                    yield mk(lambda c, ti=ti, ii=ii, si=si: c['tables'][ti]['indexes'][ii]['subjects'].__setitem__(
-                        si, {'col': c['tables'][ti]['columns'][0]['name']}))
-    for ei, e in enumerate(m['enums']):
-        for ii, it in enumerate(e['items']):
-            if it['note'] is not None:
-                yield mk(lambda c, ei=ei, ii=ii: c['enums'][ei]['items'][ii].__setitem__('note', None))
-    for ri, r in enumerate(m['refs']):
-        for k, dv in M._REF_DEF.items():
-            if r[k] != dv:
-                yield mk(lambda c, ri=ri, k=k, dv=dv: c['refs'][ri].__setitem__(k, dv))
-        if r['type'] != '>':
-            yield mk(lambda c, ri=ri: c['refs'][ri].__setitem__('type', '>'))
-        if len(r['c1']) > 1:
-            def single(c, ri=ri):
-                c['refs'][ri]['c1'] = c['refs'][ri]['c1'][:1]
-                c['refs'][ri]['c2'] = c['refs'][ri]['c2'][:1]
-            yield mk(single)
-    for gi, g in enumerate(m['table_groups']):
-        for k in ('note', 'color'):
-            if g[k] is not None:
-                yield mk(lambda c, gi=gi, k=k: c['table_groups'][gi].__setitem__(k, None))
-    if m['project'] and m['project']['note'] is not None:
-        yield mk(lambda c: c['project'].__setitem__('note', None))
-    if m['allow_properties'] and not any(t['properties'] or any(c['properties'] for c in t['columns']) for t in m['tables']):
-        yield mk(lambda c: c.__setitem__('allow_properties', False))
-    # ---- plain values: multi-line text -> one line, names -> plain fresh names
-    def notes(c):
-        out = []
-        for t in c['tables']:
-            out.append(t)
-            out.extend(t['columns'])
-            out.extend(t['indexes'])
-        for e in c['enums']:
-            out.extend(e['items'])
-        out.extend(c['table_groups'])
-        if c['project']:
-            out.append(c['project'])
-        return out
-    for k, holder in enumerate(notes(m)):
-        if holder.get('note') and holder['note'] != 'n':
-            yield mk(lambda c, k=k: notes(c)[k].__setitem__('note', 'n'))
-    for si, s in enumerate(m['sticky_notes']):
-        if s['text'] != 'n':
-            yield mk(lambda c, si=si: c['sticky_notes'][si].__setitem__('text', 'n'))
-    tnames = {t['name'] for t in m['tables']} | {t['alias'] for t in m['tables'] if t['alias']}
-    for ti, t in enumerate(m['tables']):
-        if t['schema'] != 'public':
-            if not any(o is not t and o['schema'] == 'public' and o['name'] == t['name'] for o in m['tables']):
-                yield mk(lambda c, ti=ti: rename_table(c, ti, 'public', c['tables'][ti]['name']))
-            yield mk(lambda c, ti=ti: rename_table(c, ti, 'public', _fresh('t', tnames)))
-        if not _plain(t['name']):
-            yield mk(lambda c, ti=ti: rename_table(c, ti, c['tables'][ti]['schema'], _fresh('t', tnames)))
-        if t['schema'] != 'public' and not _plain(t['schema']):
-            yield mk(lambda c, ti=ti: rename_table(c, ti, 'sch', c['tables'][ti]['name']))
-        if t['alias'] and not _plain(t['alias']):
-            yield mk(lambda c, ti=ti: c['tables'][ti].__setitem__('alias', _fresh('al', tnames)))
-        cnames = {c['name'] for c in t['columns']}
-        for ci, col in enumerate(t['columns']):
-            if not _plain(col['name']):
-                yield mk(lambda c, ti=ti, ci=ci, cn=cnames: rename_column(c, ti, ci, _fresh('c', cn)))
-        for ii, ix in enumerate(t['indexes']):
-            if ix['name'] and not _plain(ix['name']):
-                yield mk(lambda c, ti=ti, ii=ii: c['tables'][ti]['indexes'][ii].__setitem__('name', 'ixn'))
-    enames = {e['name'] for e in m['enums']}
-    for ei, e in enumerate(m['enums']):
-        if e['schema'] != 'public':
-            if not any(o is not e and o['schema'] == 'public' and o['name'] == e['name'] for o in m['enums']):
-                yield mk(lambda c, ei=ei: rename_enum(c, ei, 'public', c['enums'][ei]['name']))
-            yield mk(lambda c, ei=ei: rename_enum(c, ei, 'public', _fresh('e', enames)))
-        if not _plain(e['name']):
-            yield mk(lambda c, ei=ei: rename_enum(c, ei, c['enums'][ei]['schema'], _fresh('e', enames)))
-        if e['schema'] != 'public' and not _plain(e['schema']):
-            yield mk(lambda c, ei=ei: rename_enum(c, ei, 'sch', c['enums'][ei]['name']))
-        inames = {i['name'] for i in e['items']}
-        for ii, it in enumerate(e['items']):
-            if not _plain(it['name']):
-                yield mk(lambda c, ei=ei, ii=ii, inames=inames: c['enums'][ei]['items'][ii].__setitem__('name', _fresh('i', inames)))
-    for ri, r in enumerate(m['refs']):
-        if r['name'] and not _plain(r['name']):
-            yield mk(lambda c, ri=ri: c['refs'][ri].__setitem__('name', f'rn{ri}'))
-    for gi, g in enumerate(m['table_groups']):
-        if not _plain(g['name']):
-            yield mk(lambda c, gi=gi: c['table_groups'][gi].__setitem__('name', f'gn{gi}'))
-    if m['project'] and not _plain(m['project']['name']):
-        yield mk(lambda c: c['project'].__setitem__('name', 'pn'))
-    for si, s in enumerate(m['sticky_notes']):
-        if not _plain(s['name']):
-            yield mk(lambda c, si=si: c['sticky_notes'][si].__setitem__('name', f'sn{si}'))
-
-
-def shrink(m, sig, max_trials: int = 400):
-    """Greedy fixpoint of `candidates` keeping the failure signature (mode, generic path)."""
-    from spec.model import normalize
-    cur = normalize(m)
-    trials = 0
-    progress = True
-    while progress and trials < max_trials:
-        progress = False
-        for thunk in candidates(cur):
-            if trials >= max_trials:
-                break
-            try:
-                cand = thunk()
-                if cand == cur:
-                    continue
-                trials += 1
-                r = run_model(cand)
-            except Exception:
-                continue  # candidate is not a well-formed model (e.g. reference lost its column)
-            if r is not None and (r[0], r[1]) == sig:
-                cur = cand
-                progress = True
-                break
-    return cur
-
-
-# =========================================================================== features and keys
+# =========================================================================== value classes
 
 def _name_class(name: str) -> Optional[str]:
     if _plain(name):
@@ -438,151 +263,7 @@ def _default_class(d) -> Optional[str]:
     return k
 
 
-def features(m) -> List[str]:
-    f: List[str] = []
-
-    def add(x):
-        if x not in f:
-            f.append(x)
-
-    def note(site, holder, key='note'):
-        t = holder.get(key)
-        if t:
-            add(f'{site}-note' + ('=multiline' if '\n' in t else ''))
-
-    if m['allow_properties']:
-        pass
-    if m['project']:
-        p = m['project']
-        add('project')
-        if _name_class(p['name']):
-            add(f'project-name={_name_class(p["name"])}')
-        if p['items']:
-            add('project-field' + ('=multiline' if any('\n' in v for _, v in p['items']) else ''))
-        note('project', p)
-    for e in m['enums']:
-        add('enum')
-        if e['schema'] != 'public':
-            add('enum-schema' + (f'={_name_class(e["schema"])}' if _name_class(e['schema']) else ''))
-        if _name_class(e['name']):
-            add(f'enum-name={_name_class(e["name"])}')
-        for it in e['items']:
-            if _name_class(it['name']):
-                add(f'enum-item-name={_name_class(it["name"])}')
-            note('enum-item', it)
-    for t in m['tables']:
-        if t['schema'] != 'public':
-            add('table-schema' + (f'={_name_class(t["schema"])}' if _name_class(t['schema']) else ''))
-        if _name_class(t['name']):
-            add(f'table-name={_name_class(t["name"])}')
-        if t['alias']:
-            add('alias' + (f'={_name_class(t["alias"])}' if _name_class(t['alias']) else ''))
-        if t['header_color']:
-            add('headercolor')
-        if t['properties']:
-            add('table-property' + ('=multiline' if any('\n' in v for _, v in t['properties']) else ''))
-        note('table', t)
-        for c in t['columns']:
-            if _name_class(c['name']):
-                add(f'column-name={_name_class(c["name"])}')
-            if _type_class(c['type']):
-                add(f'type={_type_class(c["type"])}')
-            for k in ('unique', 'not_null', 'pk', 'autoinc'):
-                if c[k]:
-                    add(k)
-            if _default_class(c['default']):
-                add(f'default={_default_class(c["default"])}')
-            if c['properties']:
-                add('column-property' + ('=multiline' if any('\n' in v for _, v in c['properties']) else ''))
-            note('column', c)
-        for i in t['indexes']:
-            kinds = sorted({'col' if 'col' in s else ('expr' if 'expr' in s else 'str') for s in i['subjects']})
-            add('index-subject=' + ('composite:' if len(i['subjects']) > 1 else '') + '/'.join(kinds))
-            if i['name']:
-                add('index-name' + (f'={_name_class(i["name"])}' if _name_class(i['name']) else ''))
-            for k in ('unique', 'pk', 'type'):
-                if i[k]:
-                    add(f'index-{k}')
-            note('index', i)
-    for r in m['refs']:
-        add('ref=' + ('inline:' if r['inline'] else '') + ('composite:' if len(r['c1']) > 1 else '') + r['type'])
-        if r['name']:
-            add('ref-name' + (f'={_name_class(r["name"])}' if _name_class(r['name']) else ''))
-        if r['on_update']:
-            add('ref-update')
-        if r['on_delete']:
-            add('ref-delete')
-        if r['t1'] == r['t2']:
-            add('ref-self')
-    for g in m['table_groups']:
-        add('group' if g['items'] else 'group=empty')
-        if _name_class(g['name']):
-            add(f'group-name={_name_class(g["name"])}')
-        if g['color']:
-            add('group-color')
-        note('group', g)
-    for s in m['sticky_notes']:
-        add('sticky-note' + ('=multiline' if '\n' in s['text'] else ('=empty' if s['text'] == '' else '')))
-        if _name_class(s['name']):
-            add(f'sticky-note-name={_name_class(s["name"])}')
-    # structural features implied by a more specific one are dropped
-    drop = set()
-    for base in ('project', 'enum', 'group', 'sticky-note'):
-        if any(x.startswith(base + '-') for x in f):
-            drop.add(base)
-    return [x for x in f if x not in drop]
-
-
-_FALSY = {'default=int:0': '0', 'default=float:0.0': '0.0', 'default=bool:False': 'False', 'default=str:empty': 'empty'}
-_UNQUOTED_SITE = {'type': 'type', 'column-name': 'column-name', 'ref-name': 'ref-name',
-                  'sticky-note-name': 'sticky-note-name', 'enum-name': 'enum-name', 'enum-schema': 'enum-schema',
-                  'table-name': 'table-name', 'table-schema': 'table-schema', 'alias': 'alias',
-                  'index-name': 'index-name', 'group-name': 'group-name', 'project-name': 'project-name',
-                  'enum-item-name': 'enum-item-name'}
-
-
-def _odd_values(m) -> List[Tuple[str, str]]:
-    out = []
-    for t in m['tables']:
-        for c in t['columns']:
-            if _name_class(c['name']):
-                out.append(('column-name', c['name']))
-            if isinstance(c['type'], str) and _type_class(c['type']) in ('multiword', 'other'):
-                out.append(('type', c['type']))
-    for r in m['refs']:
-        if r['name'] and _name_class(r['name']):
-            out.append(('ref-name', r['name']))
-    for s in m['sticky_notes']:
-        if _name_class(s['name']):
-            out.append(('sticky-note-name', s['name']))
-    return out
-
-
-def key_of(mode: str, m, text: str) -> str:
-    f = features(m)
-    fs = set(f)
-    if mode == 'differs' and len(f) == 1 and f[0] in _FALSY:
-        return f'falsy-default-dropped:{_FALSY[f[0]]}'
-    if mode == 'differs' and f == ['default=str:bool-word']:
-        return 'string-default-becomes-bool'
-    if mode == 'differs' and f == ['default=str:null-word']:
-        return 'string-default-becomes-null'
-    if mode in ('reparse-error', 'differs'):
-        odd = _odd_values(m)
-        if len(odd) == 1:
-            site, val = odd[0]
-            quoted = text.count('"' + val + '"')
-            if text.count(val) > quoted:  # some occurrence of the value is written without its quotes
-                rest = [x for x in f if not x.startswith(site)]
-                if site == 'column-name':
-                    if any(x.startswith('index-subject') for x in rest):
-                        return 'unquoted:index-subject'
-                elif not rest or all(x.startswith('ref=') or x in ('sticky-note', 'ref-self') for x in rest):
-                    return f'unquoted:{site}'
-    return f'{mode}:' + '+'.join(f[:4]) if f else f'{mode}:plain'
-
-
-# =========================================================================== model generators
+# =========================================================================== model builders
 
 def _col(name='c1', type='int', **kw):
     d = {'name': name, 'type': type}
@@ -646,28 +327,323 @@ DEFAULTS = [
 ML = 'line one\n  indented two\n\nlast'
 
 
-def enumerated_models() -> Iterator[Tuple[str, Any]]:
-    yield 'skeleton', name_model('table', 't1')
+# =========================================================================== probes: the key vocabulary
+#
+# Every key is the fixed label of a *probe*: a family of single-feature models on a plain skeleton.  A failing
+# composite model (parsed document, settings combination, random model) is classified by the probes whose
+# feature it contains and which fail on the current tree; if the model still fails with those features
+# neutralised, or contains no failing probe's feature, the key is other:<site>.  Keys never depend on a seed
+# or on a search.
+
+DEFAULT_KEYS = {'int:0': 'falsy-default-dropped:0', 'float:0.0': 'falsy-default-dropped:0.0',
+                'bool:False': 'falsy-default-dropped:False', 'str:empty': 'falsy-default-dropped:empty',
+                'str:bool-word': 'string-default-becomes-bool', 'str:null-word': 'string-default-becomes-null'}
+ML_TEXTS = [ML, 'a\nb']
+
+
+def _columns(m):
+    for t in m['tables']:
+        for c in t['columns']:
+            yield c
+
+
+def _text_slots(m, site):
+    """(container, key) pairs holding the text of `site` in a normalised model."""
+    if site == 'table-note':
+        return [(t, 'note') for t in m['tables']]
+    if site == 'column-note':
+        return [(c, 'note') for c in _columns(m)]
+    if site == 'index-note':
+        return [(i, 'note') for t in m['tables'] for i in t['indexes']]
+    if site == 'enum-item-note':
+        return [(i, 'note') for e in m['enums'] for i in e['items']]
+    if site == 'group-note':
+        return [(g, 'note') for g in m['table_groups']]
+    if site == 'project-note':
+        return [(m['project'], 'note')] if m['project'] else []
+    if site == 'sticky-note':
+        return [(n, 'text') for n in m['sticky_notes']]
+    if site == 'table-property':
+        return [(p, 1) for t in m['tables'] for p in t['properties']]
+    if site == 'column-property':
+        return [(p, 1) for c in _columns(m) for p in c['properties']]
+    if site == 'project-field':
+        return [(p, 1) for p in (m['project']['items'] if m['project'] else [])]
+    raise KeyError(site)
+
+
+def _ml_model(site, text):
+    if site == 'table-note':
+        return {'tables': [_table(note=text), _table('t2')]}
+    if site == 'column-note':
+        return {'tables': [_table(cols=[_col('id', note=text), _col('c2')])]}
+    if site == 'index-note':
+        return {'tables': [_table(indexes=[{'subjects': [{'col': 'id'}], 'note': text}, {'subjects': [{'col': 'c2'}]}])]}
+    if site == 'enum-item-note':
+        return {'enums': [{'name': 'e1', 'items': [{'name': 'i1', 'note': text}, {'name': 'i2', 'note': 'n'}]}]}
+    if site == 'group-note':
+        return {'tables': [_table()], 'table_groups': [{'name': 'g1', 'items': [['public', 't1']], 'note': text}]}
+    if site == 'project-note':
+        return {'project': {'name': 'p1', 'note': text, 'items': [['k', 'v']]}, 'tables': [_table()]}
+    if site == 'sticky-note':
+        return {'sticky_notes': [{'name': 'sn1', 'text': text}, {'name': 'sn2', 'text': 'x'}], 'tables': [_table()]}
+    if site == 'table-property':
+        return {'allow_properties': True, 'tables': [_table(properties=[['k', text], ['k2', 'v']])]}
+    if site == 'column-property':
+        return {'allow_properties': True, 'tables': [_table(cols=[_col('id', properties=[['k', text]]), _col('c2')])]}
+    if site == 'project-field':
+        return {'project': {'name': 'p1', 'items': [['k', text], ['k2', 'v']]}, 'tables': [_table()]}
+    raise KeyError(site)
+
+
+ML_SITES = ['table-note', 'column-note', 'index-note', 'enum-item-note', 'group-note', 'project-note', 'sticky-note',
+            'table-property', 'column-property', 'project-field']
+
+
+def _names_at(m, pos):
+    if pos == 'table':
+        return [t['name'] for t in m['tables']]
+    if pos == 'table_schema':
+        return [t['schema'] for t in m['tables'] if t['schema'] != 'public']
+    if pos == 'alias':
+        return [t['alias'] for t in m['tables'] if t['alias']]
+    if pos == 'column':
+        return [c['name'] for c in _columns(m)]
+    if pos == 'enum':
+        return [e['name'] for e in m['enums']]
+    if pos == 'enum_schema':
+        return [e['schema'] for e in m['enums'] if e['schema'] != 'public']
+    if pos == 'enum_item':
+        return [i['name'] for e in m['enums'] for i in e['items']]
+    if pos == 'index_name':
+        return [i['name'] for t in m['tables'] for i in t['indexes'] if i['name']]
+    if pos == 'ref_name':
+        return [r['name'] for r in m['refs'] if r['name']]
+    if pos == 'group':
+        return [g['name'] for g in m['table_groups']]
+    if pos == 'project':
+        return [m['project']['name']] if m['project'] else []
+    if pos == 'sticky_note':
+        return [n['name'] for n in m['sticky_notes']]
+    raise KeyError(pos)
+
+
+def _rename_at(m, pos, pred):
+    """Give every name at `pos` that satisfies `pred` a fresh plain name (references follow)."""
+    n = [0]
+
+    def fresh(prefix):
+        n[0] += 1
+        return f'{prefix}_z{n[0]}'
+    for ti, t in enumerate(m['tables']):
+        if pos == 'table' and pred(t['name']):
+            rename_table(m, ti, t['schema'], fresh('t'))
+        if pos == 'table_schema' and t['schema'] != 'public' and pred(t['schema']):
+            rename_table(m, ti, 'sch_z', t['name'])
+        if pos == 'alias' and t['alias'] and pred(t['alias']):
+            t['alias'] = fresh('al')
+        for ci, c in enumerate(t['columns']):
+            if pos == 'column' and pred(c['name']):
+                rename_column(m, ti, ci, fresh('c'))
+        for i in t['indexes']:
+            if pos == 'index_name' and i['name'] and pred(i['name']):
+                i['name'] = fresh('ix')
+    for ei, e in enumerate(m['enums']):
+        if pos == 'enum' and pred(e['name']):
+            rename_enum(m, ei, e['schema'], fresh('e'))
+        if pos == 'enum_schema' and e['schema'] != 'public' and pred(e['schema']):
+            rename_enum(m, ei, 'sch_z', e['name'])
+        for it in e['items']:
+            if pos == 'enum_item' and pred(it['name']):
+                it['name'] = fresh('i')
+    for r in m['refs']:
+        if pos == 'ref_name' and r['name'] and pred(r['name']):
+            r['name'] = fresh('r')
+    for g in m['table_groups']:
+        if pos == 'group' and pred(g['name']):
+            g['name'] = fresh('g')
+    if m['project'] and pos == 'project' and pred(m['project']['name']):
+        m['project']['name'] = 'p_z'
+    for s in m['sticky_notes']:
+        if pos == 'sticky_note' and pred(s['name']):
+            s['name'] = fresh('sn')
+
+
+def _odd(name):
+    return '.' not in name and not _plain(name)
+
+
+def _dotted(name):
+    return '.' in name
+
+
+class Probe:
+    def __init__(self, pid, key, models, present, neutralise):
+        self.id, self.key, self.models, self.present, self.neutralise = pid, key, models, present, neutralise
+        self._fails = None
+
+    def fails(self) -> bool:
+        if self._fails is None:
+            self._fails = False
+            for m in self.models:
+                try:
+                    if run_model(m) is not None:
+                        self._fails = True
+                        break
+                except Exception:
+                    pass
+        return self._fails
+
+
+def _build_probes() -> List[Probe]:
+    out: List[Probe] = []
+    # ---- defaults, one probe per value class
+    by_class: Dict[str, List[Any]] = {}
+    for d in DEFAULTS:
+        by_class.setdefault(_default_class(d), []).append(d)
+    for cls, ds in by_class.items():
+        def present(m, cls=cls):
+            return any(_default_class(c['default']) == cls for c in _columns(m))
+
+        def neutralise(m, cls=cls):
+            for c in _columns(m):
+                if _default_class(c['default']) == cls:
+                    c['default'] = None
+        out.append(Probe(f'default/{cls}', DEFAULT_KEYS.get(cls, f'default:{cls}'),
+                         [{'tables': [_table(cols=[_col('id', 'varchar', default=d), _col('c2')])]} for d in ds],
+                         present, neutralise))
+    # ---- multi-line text per site
+    for site in ML_SITES:
+        def present(m, site=site):
+            return any(isinstance(h[k], str) and '\n' in h[k] for h, k in _text_slots(m, site))
+
+        def neutralise(m, site=site):
+            for h, k in _text_slots(m, site):
+                if isinstance(h[k], str) and '\n' in h[k]:
+                    h[k] = 'n'
+        out.append(Probe(f'multiline/{site}', f'multiline-reindented:{site}', [_ml_model(site, x) for x in ML_TEXTS],
+                         present, neutralise))
+    # ---- column types per spelling class
+    by_type: Dict[str, List[Any]] = {}
+    for ty in TYPES:
+        if _type_class(ty):
+            by_type.setdefault(_type_class(ty), []).append(ty)
+    for cls, tys in by_type.items():
+        def present(m, cls=cls):
+            return any(_type_class(c['type']) == cls for c in _columns(m))
+
+        def neutralise(m, cls=cls):
+            for c in _columns(m):
+                if _type_class(c['type']) == cls:
+                    c['type'] = 'int'
+        out.append(Probe(f'type/{cls}', f'type:{cls}',
+                         [{'tables': [_table(cols=[_col('id', ty), _col('c2', ty, not_null=True, note='n')])]} for ty in tys],
+                         present, neutralise))
+    for cls, es in (('enum', 'public'), ('schema-enum', 's1')):
+        def present(m, cls=cls):
+            return any(_type_class(c['type']) == cls for c in _columns(m))
+
+        def neutralise(m, cls=cls):
+            for c in _columns(m):
+                if _type_class(c['type']) == cls:
+                    c['type'] = 'int'
+        out.append(Probe(f'type/{cls}', f'type:{cls}',
+                         [{'enums': [{'schema': es, 'name': 'e1', 'items': [{'name': 'i1'}]}],
+                           'tables': [_table(cols=[_col('id', {'enum': [es, 'e1']}), _col('c2', {'enum': [es, 'e1']}, pk=True)])]}],
+                         present, neutralise))
+    # ---- names that need quoting, per name position (all nine odd names are variants of one probe)
     for pos in NAME_POSITIONS:
-        for n in NAME_POOL:
-            yield f'name:{pos}', name_model(pos, n)
-    # odd table / enum names inside a non-default schema
-    for n in NAME_POOL:
+        out.append(Probe(f'odd-name/{pos}', f'odd-name:{pos}', [name_model(pos, n) for n in ODD_NAMES],
+                         lambda m, pos=pos: any(_odd(x) for x in _names_at(m, pos)),
+                         lambda m, pos=pos: _rename_at(m, pos, _odd)))
+    # ---- names containing a dot: their own family
+    for pos in NAME_POSITIONS:
+        model = name_model(pos, DOTTED)
+        if pos in ('table', 'table_schema'):
+            model['table_groups'] = []
+        if pos in ('enum', 'enum_schema'):
+            model['tables'][0]['columns'][1]['type'] = 'int'
+        out.append(Probe(f'dotted-name/{pos}', f'dotted-name:{pos}', [model],
+                         lambda m, pos=pos: any(_dotted(x) for x in _names_at(m, pos)),
+                         lambda m, pos=pos: _rename_at(m, pos, _dotted)))
+    for pos in ('table', 'table_schema'):
+        sch, nm = (DOTTED, 't1') if pos == 'table_schema' else ('public', DOTTED)
+
+        def present(m, pos=pos):
+            grouped = {tuple(it) for g in m['table_groups'] for it in g['items']}
+            return any(_dotted(t['name'] if pos == 'table' else t['schema']) and (t['schema'], t['name']) in grouped
+                       for t in m['tables'])
+        out.append(Probe(f'dotted-name/group-item/{pos}', 'dotted-name:group-item',
+                         [{'tables': [_table(nm, schema=sch)], 'table_groups': [{'name': 'g1', 'items': [[sch, nm]]}]}],
+                         present, lambda m, pos=pos: _rename_at(m, pos, _dotted)))
+    for pos in ('enum', 'enum_schema'):
+        sch, nm = (DOTTED, 'e1') if pos == 'enum_schema' else ('public', DOTTED)
+        variants = [{'enums': [{'schema': sch, 'name': nm, 'items': [{'name': 'i1'}]}],
+                     'tables': [_table(cols=[_col('id', {'enum': [sch, nm]}), _col('c2')])]}]
+        if pos == 'enum':
+            variants.append({'enums': [{'schema': 's1', 'name': nm, 'items': [{'name': 'i1'}]}],
+                             'tables': [_table(cols=[_col('id', {'enum': ['s1', nm]}), _col('c2')])]})
+
+        def present(m, pos=pos):
+            used = {tuple(c['type']['enum']) for c in _columns(m) if isinstance(c['type'], dict)}
+            return any(_dotted(e['name'] if pos == 'enum' else e['schema']) and (e['schema'], e['name']) in used
+                       for e in m['enums'])
+        out.append(Probe(f'dotted-name/enum-type/{pos}', 'dotted-name:enum-type', variants,
+                         present, lambda m, pos=pos: _rename_at(m, pos, _dotted)))
+    return out
+
+
+_PROBES: Optional[List[Probe]] = None
+
+
+def probes() -> List[Probe]:
+    global _PROBES
+    if _PROBES is None:
+        _PROBES = _build_probes()
+    return _PROBES
+
+
+def _site_of(r) -> str:
+    mode, path = r[0], r[1]
+    if mode == 'differs':
+        return path or 'content'
+    return {'reparse-error': 'reparse', 'render-error': 'render', 'not-fixpoint': 'fixpoint'}.get(mode, mode)
+
+
+def classify(m, r) -> Tuple[str, str]:
+    """Key of a failing composite model: decided by the single-feature probes, never by a search."""
+    from spec.model import normalize
+    m = normalize(m)
+    present = [p for p in probes() if p.present(m)]
+    failing = [p for p in present if p.fails()]
+    if not failing:
+        return f'other:{_site_of(r)}', 'no single-feature probe whose feature occurs in the model fails on this tree'
+    m2 = copy.deepcopy(m)
+    for p in failing:
+        p.neutralise(m2)
+    try:
+        r2 = run_model(m2)
+    except Exception:
+        r2 = None
+    if r2 is not None:
+        return (f'other:{_site_of(r2)}',
+                f'still fails with the features of the failing probes {[p.id for p in failing]} neutralised: {r2[0]}: {r2[2]}')
+    return failing[0].key, f'explained by failing probes {[p.id for p in failing]}'
+
+
+# =========================================================================== composite models
+
+def composite_models() -> Iterator[Tuple[str, Any]]:
+    """Fixed enumeration of feature combinations (no single-feature probes here)."""
+    yield 'skeleton', name_model('table', 't1')
+    for n in ODD_NAMES:
         yield 'name:table+schema', {'tables': [_table(n, schema='s1'), _table('t2')],
                                     'refs': [_ref('>', ('public', 't2'), ('id',), ('s1', n), ('id',)),
                                              _ref('<', ('s1', n), ('c2',), ('public', 't2'), ('c2',), inline=True)],
                                     'table_groups': [{'name': 'g1', 'items': [['s1', n]]}]}
         yield 'name:enum+schema', {'enums': [{'schema': 's1', 'name': n, 'items': [{'name': 'i1'}]}],
                                    'tables': [_table(cols=[_col('id', {'enum': ['s1', n]}), _col('c2')])]}
-    # ---- types
-    for ty in TYPES:
-        yield 'type', {'tables': [_table(cols=[_col('id', ty), _col('c2', ty, not_null=True, note='n')])]}
-    for es in ('public', 's1'):
-        yield 'type:enum', {'enums': [{'schema': es, 'name': 'e1', 'items': [{'name': 'i1'}]}],
-                            'tables': [_table(cols=[_col('id', {'enum': [es, 'e1']}), _col('c2', {'enum': [es, 'e1']}, pk=True)])]}
-    # ---- defaults (alone, and next to other settings)
     for d in DEFAULTS:
-        yield 'default', {'tables': [_table(cols=[_col('id', 'varchar', default=d), _col('c2')])]}
         yield 'default+settings', {'tables': [_table(cols=[_col('id', 'varchar', default=d, not_null=True, unique=True, note='n'),
                                                            _col('c2')])]}
     # ---- column flags
@@ -684,7 +660,7 @@ def enumerated_models() -> Iterator[Tuple[str, Any]]:
         yield 'index', {'tables': [_table(indexes=[{'subjects': ss, 'pk': True}])]}
     for ty in INDEX_TYPES:
         yield 'index:type', {'tables': [_table(indexes=[{'subjects': [{'col': 'id'}], 'type': ty}])]}
-    for kw in ({'name': 'ix'}, {'unique': True}, {'note': 'n'}, {'note': ML}, {'pk': True, 'name': 'ix'}):
+    for kw in ({'name': 'ix'}, {'unique': True}, {'note': 'n'}, {'pk': True, 'name': 'ix'}):
         yield 'index:setting', {'tables': [_table(indexes=[{'subjects': [{'col': 'id'}], **kw}, {'subjects': [{'col': 'c2'}]}])]}
     # ---- references
     two = [_table('t1', [_col('id'), _col('c2'), _col('c3')]), _table('t2', [_col('id'), _col('c2'), _col('c3')])]
@@ -714,7 +690,7 @@ def enumerated_models() -> Iterator[Tuple[str, Any]]:
     yield 'ref:aliases', {'tables': [_table('t1', alias='a1'), _table('t2', alias='a2')],
                           'refs': [_ref('>'), _ref('<', c1=('c2',), c2=('c2',), inline=True)]}
     # ---- table level
-    for kw in ({'alias': 'al'}, {'header_color': '#fff'}, {'header_color': '#aB12cd'}, {'note': 'n'}, {'note': ML},
+    for kw in ({'alias': 'al'}, {'header_color': '#fff'}, {'header_color': '#aB12cd'}, {'note': 'n'},
                {'schema': 's1'}, {'schema': 's1', 'alias': 'al', 'header_color': '#000', 'note': 'n'}):
         yield 'table', {'tables': [_table(**kw), _table('t2')]}
     yield 'table:properties', {'allow_properties': True,
@@ -722,30 +698,22 @@ def enumerated_models() -> Iterator[Tuple[str, Any]]:
                                           _table('t2')]}
     yield 'column:properties', {'allow_properties': True,
                                 'tables': [_table(cols=[_col('id', properties=[['k', 'v']], pk=True), _col('c2', properties=[['a', 'b'], ['c', 'd']])])]}
-    yield 'table:properties-multiline', {'allow_properties': True, 'tables': [_table(properties=[['k', 'a\nb']])]}
-    yield 'column:properties-multiline', {'allow_properties': True, 'tables': [_table(cols=[_col('id', properties=[['k', 'a\nb']]), _col('c2')])]}
-    yield 'project:field-multiline', {'project': {'name': 'p1', 'items': [['k', 'a\nb']]}, 'tables': [_table()]}
     yield 'properties:flag-only', {'allow_properties': True, 'tables': [_table()]}
-    for kw in ({'note': 'n'}, {'note': ML}):
-        yield 'column:note', {'tables': [_table(cols=[_col('id', **kw), _col('c2')])]}
+    yield 'column:note', {'tables': [_table(cols=[_col('id', note='n'), _col('c2')])]}
     # ---- enums
     yield 'enum', {'enums': [{'name': 'e1', 'items': [{'name': 'i1', 'note': 'n'}, {'name': 'i2'}]},
                              {'schema': 's1', 'name': 'e1', 'items': [{'name': 'i1'}]}], 'tables': [_table()]}
-    yield 'enum:item-note', {'enums': [{'name': 'e1', 'items': [{'name': 'i1', 'note': ML}, {'name': 'i2', 'note': 'n'}]}]}
     yield 'enum:only', {'enums': [{'name': 'e1', 'items': [{'name': 'i1'}]}]}
     # ---- groups, project, sticky notes
-    for kw in ({}, {'color': '#fff'}, {'note': 'n'}, {'note': ML}, {'color': '#123456', 'note': 'n'}):
+    for kw in ({}, {'color': '#fff'}, {'note': 'n'}, {'color': '#123456', 'note': 'n'}):
         yield 'group', {'tables': [_table(), _table('t2')], 'table_groups': [{'name': 'g1', 'items': [['public', 't1'], ['public', 't2']], **kw}]}
     yield 'group:empty', {'tables': [_table()], 'table_groups': [{'name': 'g1', 'items': []}]}
     yield 'group:two', {'tables': [_table(), _table('t2')], 'table_groups': [{'name': 'g1', 'items': [['public', 't2']]},
                                                                            {'name': 'g2', 'items': [['public', 't1']]}]}
-    for p in ({'name': 'p1'}, {'name': 'p1', 'items': [['database_type', 'PostgreSQL'], ['k', 'v']]},
-              {'name': 'p1', 'note': 'n'}, {'name': 'p1', 'note': ML, 'items': [['k', 'v']]}):
+    for p in ({'name': 'p1'}, {'name': 'p1', 'items': [['database_type', 'PostgreSQL'], ['k', 'v']]}, {'name': 'p1', 'note': 'n'}):
         yield 'project', {'project': p, 'tables': [_table()]}
     yield 'project:only', {'project': {'name': 'p1', 'items': [['k', 'v']]}}
-    for s in ([{'name': 'sn1', 'text': 'x'}], [{'name': 'sn1', 'text': ML}],
-              [{'name': 'sn1', 'text': 'x'}, {'name': 'sn2', 'text': 'y\nz'}]):
-        yield 'sticky', {'sticky_notes': s, 'tables': [_table()]}
+    yield 'sticky', {'sticky_notes': [{'name': 'sn1', 'text': 'x'}, {'name': 'sn2', 'text': 'y'}], 'tables': [_table()]}
     yield 'sticky:only', {'sticky_notes': [{'name': 'sn1', 'text': 'x'}]}
 
 
@@ -892,86 +860,84 @@ def random_model(rnd: random.Random):
 
 # =========================================================================== the obligation
 
+
+# =========================================================================== the obligation
+
 class RoundTrip(BObl):
     id = 'C02.B.roundtrip'
     property = 'C02'
-    rule = ('recipe kinds: {file} = one of the repository\'s DBML documents, parsed; {enum: k} = k-th model of a fixed '
-            'enumeration over the DBML-expressible value domain (11 names x 12 name positions on a skeleton that uses '
-            'the name in references, indexes, groups and types; 13 type spellings and enum types; 23 defaults incl. '
-            'falsy and bool/null words, alone and next to other settings; 16 flag combinations; index shapes and '
-            'settings; 4 reference kinds x single/composite/named/self/inline/actions; schemas; aliases; table, group, '
-            'project, sticky-note settings; properties); {rand: i} = seeded random model combining these.  Contract: '
-            'db2 = PyDBML(db.dbml): content of db2 == content of db (view() without comments) and db2.dbml == db.dbml.  '
-            'Failing models are shrunk; key = cause and site from the features of the minimal model.  '
-            'Non-trivial = the database has at least one element; distinct = distinct recipe')
-    bound = ('33 parsed documents (comments cleared) + 331 enumerated models (complete enumeration of the one-feature domain) + random models: '
-             '600 quick, 30 000 thorough (1-3 tables, 1-4 columns, 0-2 enums/indexes/groups/sticky notes, 0-3 references)')
+    rule = ('recipe kinds: {probe, v} = variant v of a single-feature probe on a plain skeleton (23 default values by '
+            'value class; multi-line text at 10 sites; 13 type spellings by class and enum types; 9 names that need '
+            'quoting x 12 name positions on a skeleton that uses the name in references, indexes, groups and types; '
+            'the dotted name a.b at the 12 positions, as a group item and as an enum type); {enum: k} = k-th model of a '
+            'fixed enumeration of feature combinations (flags, index shapes/settings, 4 reference kinds x '
+            'single/composite/named/self/inline/actions, schemas, aliases, table/group/project/sticky settings, '
+            'properties, defaults next to other settings); {file} = one of the repository\'s DBML documents, parsed, '
+            'comments cleared; {rand: i} = seeded random model combining these (no dotted names).  Contract: '
+            'db2 = PyDBML(db.dbml): content of db2 == content of db (view() without comments, reference order where '
+            'DBML can express it) and db2.dbml == db.dbml.  Key: a failing probe reports its fixed label; any other '
+            'failing model reports the label of the first failing probe whose feature it contains, or other:<site> '
+            'if no such probe exists or the model still fails with those features neutralised')
+    bound = ('probes and 151 combinations: complete fixed enumeration; 33 parsed documents; random models: 600 quick, '
+             '30 000 thorough (1-3 tables, 1-4 columns, 0-2 enums/indexes/groups/sticky notes, 0-3 references)')
     chunk = 8
     budget = {'quick': 27.0, 'thorough': 560.0}
 
     def cases(self, tier, seed):
+        for p in probes():
+            for v in range(len(p.models)):
+                yield {'probe': p.id, 'v': v}
+        for k, _ in enumerate(composite_models()):
+            yield {'enum': k}
         for name, _text, _props in parseable_seed_documents():
             yield {'file': name}
-        for k, _ in enumerate(enumerated_models()):
-            yield {'enum': k}
         n = 600 if tier == 'quick' else 30000
         for i in range(n):
             yield {'rand': i, 'seed': seed}
 
-    def _model(self, recipe):
-        if 'enum' in recipe:
-            for k, (label, m) in enumerate(enumerated_models()):
-                if k == recipe['enum']:
-                    return label, m
-            raise IndexError(recipe)
-        rnd = random.Random(f"c02/{recipe['seed']}/{recipe['rand']}")
-        return 'random', random_model(rnd)
-
     def nontrivial(self, recipe):
         return True
 
-    def _report(self, m, r, origin):
-        from spec.model import normalize
-        mode, path, msg, text = r
-        small = shrink(m, (mode, path))
-        r2 = None
-        try:
-            r2 = run_model(small)
-        except Exception:
-            pass
-        if r2 is None:
-            small, r2 = normalize(m), r
-        mode, path, msg, text = r2
-        key = key_of(mode, small, text)
-        shown = {k: v for k, v in small.items() if v not in (None, [], False)}
-        return key, f'{origin}: {mode}: {msg} | minimal model: {repr(shown)[:420]}'
+    @staticmethod
+    def _shown(m) -> str:
+        return repr({k: v for k, v in m.items() if v not in (None, [], False)})[:380]
 
     def check(self, recipe):
         from pydbml import PyDBML
         from spec.model import view, normalize
+        if 'probe' in recipe:
+            p = next(x for x in probes() if x.id == recipe['probe'])
+            m = p.models[recipe['v']]
+            r = run_model(m)
+            if r is None:
+                return None
+            return p.key, f'probe {p.id}[{recipe["v"]}]: {r[0]}: {r[2]} | model: {self._shown(m)}'
         if 'file' in recipe:
-            docs = {n: (t, p) for n, t, p in parseable_seed_documents()}
+            docs = {n: (t, pr) for n, t, pr in parseable_seed_documents()}
             text, props = docs[recipe['file']]
             db = PyDBML(text, allow_properties=True) if props else PyDBML(text)
             _clear_comments(db)
             r = roundtrip(db, props)
             if r is None:
                 return None
-            # reproduce through the public classes from the parsed content, then shrink there
             m = normalize(view(db))
             try:
-                r_api = run_model(m)
+                r_api = run_model(m)   # the same content built through the public classes
             except Exception:
                 r_api = None
-            if r_api is not None and r_api[0] == r[0]:
-                return self._report(m, r_api, f'parsed {recipe["file"]}')
-            mode, path, msg, _ = r
-            return f'parsed-only:{mode}:{path or "-"}', f'parsed {recipe["file"]}: {mode}: {msg}'
-        label, m = self._model(recipe)
+            if r_api is None or r_api[0] != r[0]:
+                return f'other:{_site_of(r)}', f'parsed {recipe["file"]} (not reproduced through the API): {r[0]}: {r[2]}'
+            key, why = classify(m, r_api)
+            return key, f'parsed {recipe["file"]}: {r[0]}: {r[2]} | {why}'
+        if 'enum' in recipe:
+            label, m = next(x for k, x in enumerate(composite_models()) if k == recipe['enum'])
+        else:
+            label, m = 'random', random_model(random.Random(f"c02/{recipe['seed']}/{recipe['rand']}"))
         r = run_model(m)
         if r is None:
             return None
-        return self._report(m, r, f'model {label}')
+        key, why = classify(m, r)
+        return key, f'model {label}: {r[0]}: {r[2]} | {why} | model: {self._shown(m)}'
 
 
 OBLIGATIONS = [RoundTrip()]
